@@ -46,3 +46,16 @@ Theorem C06_uncounted_include_failure_refuted :
     rc = false /\ 0 < diags s /\ grc = true /\ 0 < outputs s'.
 Proof. exact protocol_uncounted_include_refuted. Qed.
 Print Assumptions C06_uncounted_include_failure_refuted.
+
+(* termination of the in-body loop at end of input rests on the cap alone: with the test `failed >= cap` the measure
+   cap - failed decreases and the loop ends within cap + 1 turns for EVERY sequence of per-turn diagnostics ... *)
+Theorem C06_eof_loop_terminates : forall cap ks s, (forall i, 1 <= ks i) ->
+  exists s', eof_loop cap_ge cap ks 0 (S cap) s = Some s' /\ cap <= failed s'.
+Proof. exact eof_loop_terminates. Qed.
+Print Assumptions C06_eof_loop_terminates.
+
+(* ... with `failed == cap` it runs forever once one turn steps over the cap (9 diagnostics, then a field reporting two) *)
+Theorem C06_equality_cap_refuted :
+  exists ks s, (forall i, 1 <= ks i) /\ failed s = 9 /\ forall fuel, eof_loop cap_eq 10 ks 0 fuel s = None.
+Proof. exact eof_loop_equality_refuted. Qed.
+Print Assumptions C06_equality_cap_refuted.
